@@ -13,6 +13,13 @@
 //   D:1                choke decision: Peer::set_snubbed(true) on the real choke_queue, at once.
 //                      Must not follow R/C/D:0 directly and must be followed by a W (generator puts
 //                      W:0): any stepping of the library afterwards is a write opportunity.
+//   K                  keep-alive tick: pcb->receive_keepalive(), what DownloadWrapper::receive_tick does for every
+//                      connection when ticks % 4 == 0 (no pending R/C in front; generator puts W:0 around it)
+//   Q:n                (cases with rate=<bytes/s> in the header: real upload Throttle enabled) grant n bytes of
+//                      quota: ThrottleList::update_quota(n), what Throttle::receive_tick calls. Before every W the
+//                      throttle counters of this connection's node are read and reported (thr=...): the glue feeds
+//                      them to the model as op T
+//   PROBE              (whole line) print the policy of the compiled code: q= ll= ei= eu= (see run_probe)
 //   W:k / W:inf        flush the batch, let the library-side socket accept k more bytes, step to
 //                      quiescence, the peer reads everything available; snapshot.
 // Output: see ocaml/c05_driver.ml; after " || " oracle-only fields (not compared with the model):
